@@ -227,6 +227,13 @@ func (c *canon) stmt(s ast.Stmt) []string {
 		}
 		s := "if " + strings.Join(pre, ";") + ";" + c.expr(x.Cond) + c.block(x.Body)
 		if x.Else != nil {
+			// `if c { …; return } else { rest }` and `if c { …; return }; rest` are one program
+			if eb, isBlk := x.Else.(*ast.BlockStmt); isBlk && x.Init == nil && len(x.Body.List) > 0 {
+				switch x.Body.List[len(x.Body.List)-1].(type) {
+				case *ast.ReturnStmt, *ast.BranchStmt:
+					return append([]string{s}, c.stmts(eb.List)...)
+				}
+			}
 			s += "else{" + strings.Join(c.stmt(x.Else), ";") + "}"
 		}
 		return []string{s}
